@@ -102,14 +102,11 @@ R04B_ALLOWED = {
     "_cumulative.CumulativeBlockwise": "column-wise",
     "_cumulative.TakeLast": "column-wise",
     "_expr._DeepCopy": "copy",
-    "_expr.Fillna": "scalar / dict value: pandas ignores keys of absent columns",
-    "_expr.Isin": "values looked up per column; absent keys are ignored",
     "_expr.Clip": "bounds are scalars / aligned series (own rule handles the rest)",
     "_expr.ArrowStringConversion": "column-wise",
     "_expr.ToTimestamp": "index only",
     "_expr.IsNa": "column-wise",
     "_expr.Mask": "cond/other are aligned on the index and on the frame's columns (a single-column selection narrows them too, see plain_column_projection)",
-    "_expr.Round": "dict decimals: pandas ignores absent columns",
     "_expr.Where": "cond/other are aligned on the index and on the frame's columns (a single-column selection narrows them too, see plain_column_projection)",
     "_expr.Abs": "column-wise",
     "_expr.RenameAxis": "axis names only",
@@ -126,6 +123,11 @@ R04B_ALLOWED = {
 }
 R04B_COMPUTED = {
     "_expr.Replace": "flag is a property: False whenever to_replace / value are dict-like (possibly keyed by columns)",
+    # these three were in the table above with "pandas ignores keys of absent columns" - wrong for a single selected column: the
+    # frame becomes a Series and the keys mean index labels (defect repaired in /repo)
+    "_expr.Fillna": "flag is a property: False for dict / Series / expression values",
+    "_expr.Isin": "flag is a property: False for a dict of per-column values",
+    "_expr.Round": "flag is a property: False for dict / Series decimals",
 }
 
 
@@ -168,7 +170,14 @@ def r04b(ctx):
         cid = f"{c.qual}._projection_passthrough"
         if mem.kind != "attr":
             if c.qual in R04B_COMPUTED:
-                ctx.exempt(cid, c.loc, R04B_COMPUTED[c.qual])
+                # the reason is checked, not taken on trust: the property must turn the flag off for dict-like operands
+                from sa.rules.util import closure_text
+
+                body = closure_text(model, c.module, c, mem.node, depth=1)
+                if "dict" in body and "isinstance" in body:
+                    ctx.exempt(cid, c.loc, R04B_COMPUTED[c.qual])
+                else:
+                    ctx.bad(cid, c.module.loc(mem.node), f"{c.qual}._projection_passthrough is computed but no longer tests its operands for dict-like (column-keyed) values: {R04B_COMPUTED[c.qual]}")
             else:
                 ctx.unclassified(cid, c.loc, "flag is computed")
             continue
@@ -180,7 +189,7 @@ def r04b(ctx):
             ctx.ok(cid, c.loc, R04B_ALLOWED[c.qual])
         else:
             ctx.bad(cid, mem.cls.module.loc(mem.node), f"{c.qual} uses the generic projection pass-through (flag set in {mem.cls.qual}) but is not in the confirmed column-agnostic table: operands that refer to columns by label break once the frame is pruned (KeyError / silently different result)")
-    ctx.floor("classes with _projection_passthrough=True", n, 20)
+    ctx.floor("classes with _projection_passthrough=True", n, 15)
 
 
 KEY_PARAMS = {"by", "subset", "_other", "partitioning_index", "left_on", "right_on", "column", "_columns", "left_by", "right_by"}
